@@ -32,6 +32,12 @@ func openPair(eng string, keep [2]int) (*pair, error) {
 	if err != nil {
 		return nil, err
 	}
+	return openPairAt(base, eng, keep)
+}
+
+// openPairAt opens (or reopens) the two stores under base; pair.close removes base.
+func openPairAt(base, eng string, keep [2]int) (*pair, error) {
+	var err error
 	p := &pair{base: base}
 	fullNS := smx.NS + "-0"
 	var ports [2]int
